@@ -1335,6 +1335,14 @@ func (w *World) opProbe(op *Op) {
 	var rr callResult
 	what := op.F
 	disk.BeginCall()
+	garbled := false
+	if op.N > 0 {
+		// one read of this call is served truncated, without an error (stale replica): the call
+		// may fail; if it succeeds it has still read no more than its bound
+		disk.GarbleLoadAt = op.N
+		garbled = true
+		defer disk.ClearFaults()
+	}
 	switch op.F {
 	case "clone":
 		rr = guard(func() error { _, err := m.Clone(ctx); return err })
@@ -1356,9 +1364,20 @@ func (w *World) opProbe(op *Op) {
 		return
 	}
 	loaded, _, calls, _ := disk.Window()
+	disk.GarbleLoadAt = 0
+	if garbled && disk.Fired["load-truncated-bytes"] > 0 {
+		w.st.Faults["load-truncated-bytes"]++
+	}
 	if rr.bad() {
+		if garbled {
+			w.st.Probes["probe-failed-on-truncated-read"]++
+			return
+		}
 		w.failFor("C01", what+"-fails", "%s on reloaded tree: %s", what, rr)
 		return
+	}
+	if garbled {
+		what += "/one-read-truncated"
 	}
 	if int(m.Height()) != H {
 		w.st.Probes["probe-height-changed"]++
